@@ -24,6 +24,7 @@ func init() {
 			{"R9.1", "bounded assembly of decompressed records", ruleBoundedAssembly},
 			{"R9.2", "sort before write", ruleSortBeforeWrite},
 			{"R9.3", "ticks codec agreement + framing constants", ruleTicksCodecAgreement},
+			{"R9.5", "the sort covers the merged buffer", ruleSortCoversMergedData},
 			{"R8.2", "paired previous-row state is updated together", rulePairedPrevState},
 		},
 	})
